@@ -66,10 +66,10 @@ func scanDir(fs *fstxn.FsState, ip *inode.Inode) map[string]diskDirent {
 		}
 		blk := fs.Txn.Load(addr.MkAddr(bn, 0), common.NBITBLOCK).Data
 		ent := blk[off%BlockSize : off%BlockSize+dir.DIRENTSZ]
-		if leU64(ent[8:]) > dir.MAXNAMELEN {
+		inum, name, derr := decodeDirEnt(ent)
+		if derr != nil {
 			continue
 		}
-		inum, name := dir.VerifDecodeDirEnt(ent)
 		if inum != common.NULLINUM {
 			out[name] = diskDirent{uint64(inum), off}
 		}
